@@ -9,18 +9,19 @@ import (
 )
 
 // Value is one of:
-//   *Term                 bool / integer scalars (possibly symbolic)
-//   Float                 concrete float64 / float32
-//   Complex               concrete complex128 (unsupported beyond zero)
-//   Str                   string (concrete or symbolic bytes)
-//   Ptr                   pointer (zero ObjID = nil)
-//   Tuple                 struct / array / multi-value (immutable)
-//   Slice                 slice header
-//   *SymBuf               []byte with symbolic length (lazy buffer)
-//   Iface                 interface value (T == nil: nil interface)
-//   *Closure              func value (nil *Closure = nil func)
-//   MapRef, ChanRef       references to heap map / channel objects
-//   Opaque                value produced by an opaque constructor or lenient init
+//
+//	*Term                 bool / integer scalars (possibly symbolic)
+//	Float                 concrete float64 / float32
+//	Complex               concrete complex128 (unsupported beyond zero)
+//	Str                   string (concrete or symbolic bytes)
+//	Ptr                   pointer (zero ObjID = nil)
+//	Tuple                 struct / array / multi-value (immutable)
+//	Slice                 slice header
+//	*SymBuf               []byte with symbolic length (lazy buffer)
+//	Iface                 interface value (T == nil: nil interface)
+//	*Closure              func value (nil *Closure = nil func)
+//	MapRef, ChanRef       references to heap map / channel objects
+//	Opaque                value produced by an opaque constructor or lenient init
 type Value interface{}
 
 type ObjID struct {
